@@ -261,6 +261,8 @@ type c10CLICase struct {
 	Size  int    `json:"size"`
 	Pos   string `json:"pos"`
 	Bin   bool   `json:"bin"`
+	End   bool   `json:"end,omitempty"`      // a global -e 2021/01/01: the unreadable part lies in days after the period
+	Defaults bool `json:"defaults,omitempty"` // the files are ./food.yaml and ./log.yaml of the working directory, no -d / -l
 }
 
 func c10LongFile(isLog bool, shape string, size int, pos string) string {
@@ -475,6 +477,33 @@ func checkC10CLI(c c10CLICase, ctx *vCtx) *vFailure {
 			args[i] = strings.ReplaceAll(strings.ReplaceAll(a, "@LOG@", lp), "@BOOK@", bp)
 		}
 		inv := vInvocation{Args: append([]string{"--today", vToday, "-d", bp, "-l", lp}, args...)}
+		if c.End {
+			inv.Args = append([]string{"-e", "2021/01/01"}, inv.Args...)
+		}
+		if c.Defaults {
+			// the same files under their default names in a private working directory
+			cwd := filepath.Join(vScratchDir(), "c10-cwd")
+			_ = os.RemoveAll(cwd)
+			_ = os.MkdirAll(cwd, 0o755)
+			for _, fl := range [][2]string{{bp, "food.yaml"}, {lp, "log.yaml"}} {
+				if st, err := os.Stat(fl[0]); err == nil && st.IsDir() {
+					_ = os.Mkdir(filepath.Join(cwd, fl[1]), 0o755)
+				} else if b, err := os.ReadFile(fl[0]); err == nil {
+					_ = os.WriteFile(filepath.Join(cwd, fl[1]), b, 0o644)
+				}
+			}
+			for i, a := range args {
+				if a == lp {
+					args[i] = "log.yaml"
+				} else if a == bp {
+					args[i] = "food.yaml"
+				}
+			}
+			inv = vInvocation{Args: append([]string{"--today", vToday}, args...), Cwd: cwd}
+			if c.End {
+				inv.Args = append([]string{"-e", "2021/01/01"}, inv.Args...)
+			}
+		}
 		ctx.Run(1)
 		if c.Bin {
 			r := vRunBin(inv, 30*time.Second)
@@ -487,6 +516,12 @@ func checkC10CLI(c c10CLICase, ctx *vCtx) *vFailure {
 	}
 	which := map[bool]string{true: "log", false: "book"}[onLog]
 	ctx.Label("shape:" + c.Shape)
+	if c.End {
+		ctx.Label("with -e before the fault")
+	}
+	if c.Defaults {
+		ctx.Label("default file names")
+	}
 	ctx.Label("cmd:" + strings.Join(cmd.args[:vMin(2, len(cmd.args))], " "))
 	ctx.NonTrivial(strings.HasPrefix(c.Shape, "dir") || c.Pos != "last")
 	// control: everything readable (a 60000-byte line is below the limit)
@@ -547,7 +582,24 @@ func c10CLISpace() []c10CLICase {
 			out[i].Bin = i%2 == 0
 		}
 	}
-	return out
+	// variants: the fault lies behind the end of the requested period; the files carry their default names
+	var extra []c10CLICase
+	for _, c := range out {
+		if c.Shape == "dir" || c.Shape == "dir-proc" || (strings.HasPrefix(c.Shape, "long-") && c.Pos == "last" && c.Size == 70*1024) {
+			if c.OnLog && strings.HasPrefix(c.Shape, "long-") {
+				e := c
+				e.End = true
+				extra = append(extra, e)
+			}
+			if c.Shape != "dir-proc" {
+				d := c
+				d.Defaults = true
+				d.Bin = !c.Bin
+				extra = append(extra, d)
+			}
+		}
+	}
+	return append(out, extra...)
 }
 
 func init() {
